@@ -35,22 +35,22 @@ func TestC48(t *testing.T) {
 	w.totality()
 	w.request()
 	w.ossl()
-	m.Gate("rt_compared", m.N(300, 9000), "templates that went through create→parse→field comparison")
-	m.Gate("rt_serial_gt64", m.N(60, 2000), "round trips with serials wider than 64 bits")
-	m.Gate("rt_serial_hibit", m.N(40, 1500), "round trips with serials whose top content byte is ≥ 0x80")
-	m.Gate("rt_revoked", m.N(60, 2000), "revoked templates compared (RevokedAt, reason)")
-	m.Gate("rt_embedded_cert", m.N(60, 2000), "round trips with an embedded delegate certificate")
-	m.Gate("rt_sig_checked", m.N(300, 9000), "created responses whose signature was verified over the walker's tbs bytes")
+	m.Gate("rt_compared", m.N(500, 12000), "templates that went through create→parse→field comparison")
+	m.Gate("rt_serial_gt64", m.N(150, 4000), "round trips with serials wider than 64 bits")
+	m.Gate("rt_serial_hibit", m.N(150, 4000), "round trips with serials whose top content byte is ≥ 0x80")
+	m.Gate("rt_revoked", m.N(150, 4000), "revoked templates compared (RevokedAt, reason)")
+	m.Gate("rt_embedded_cert", m.N(200, 5000), "round trips with an embedded delegate certificate")
+	m.Gate("rt_sig_checked", m.N(600, 15000), "created responses whose signature was verified over the walker's tbs bytes")
 	m.Gate("clock_cases", m.N(20, 300), "ProducedAt observed under a fake clock")
-	m.Gate("bind_must_reject", m.N(150, 4000), "parses of responses not signed by the issuer or an issuer-signed embedded cert")
-	m.Gate("bind_must_accept", m.N(100, 3000), "parses of properly signed responses")
-	m.Gate("bind_forged_delegate", m.N(15, 400), "attacker-signed response embedding a certificate that names the issuer but is not signed by it")
-	m.Gate("bind_wrong_issuer", m.N(40, 1000), "correctly signed responses checked against another CA")
-	m.Gate("mut_signed_region", m.N(4000, 40000), "mutations inside tbsResponseData/signature/delegate cert tbs+signature")
-	m.Gate("mut_bases_complete", m.N(6, 20), "base responses whose every byte was mutated")
-	m.Gate("multi_cases", m.N(40, 1000), "multi-status responses")
-	m.Gate("total_inputs", m.N(3000, 100000), "hostile inputs through the parsers")
-	m.Gate("req_compared", m.N(100, 3000), "request round trips")
+	m.Gate("bind_must_reject", m.N(1500, 30000), "parses of responses not signed by the issuer or an issuer-signed embedded cert")
+	m.Gate("bind_must_accept", m.N(300, 6000), "parses of properly signed responses")
+	m.Gate("bind_forged_delegate", m.N(32, 640), "attacker-signed response embedding a certificate that names the issuer but is not signed by it")
+	m.Gate("bind_wrong_issuer", m.N(150, 3000), "correctly signed responses checked against another CA")
+	m.Gate("mut_signed_region", m.N(10000, 200000), "mutations inside tbsResponseData/signature/delegate cert tbs+signature")
+	m.Gate("mut_bases_complete", m.N(8, 72), "base responses whose every byte was mutated")
+	m.Gate("multi_cases", m.N(80, 2000), "multi-status responses")
+	m.Gate("total_inputs", m.N(6000, 200000), "hostile inputs through the parsers")
+	m.Gate("req_compared", m.N(180, 4500), "request round trips")
 }
 
 type c48w struct {
@@ -62,7 +62,7 @@ type c48w struct {
 
 func (w *c48w) roundtrip() {
 	m := w.m
-	m.Cases("roundtrip", m.N(700, 20000), func(i int64, r *mrand.Rand) {
+	m.Cases("roundtrip", m.N(1600, 40000), func(i int64, r *mrand.Rand) {
 		issuerKind := c48Kinds[int(i)%4]
 		delegKind := c48Kinds[int(i/4)%4]
 		inter := (i/16)%3 == 2
@@ -79,6 +79,7 @@ func (w *c48w) roundtrip() {
 		var cls []string
 		expectErr := "" // non-empty: CreateResponse may (not must) fail
 		parseEither := ""
+		oddStatus := false
 
 		// status
 		switch r.IntN(10) {
@@ -90,11 +91,11 @@ func (w *c48w) roundtrip() {
 			tmpl.Status = ocsp.Unknown
 		default:
 			tmpl.Status = mon.Pick(r, []int{ocsp.ServerFailed, 4, -1, 255})
-			parseEither = "undocumented-status"
+			oddStatus = true
 		}
 		if i%5 == 0 {
 			tmpl.Status = ocsp.Revoked
-			parseEither = ""
+			oddStatus = false
 		}
 		cls = append(cls, fmt.Sprint("st", tmpl.Status))
 		var serialCls string
@@ -188,7 +189,7 @@ func (w *c48w) roundtrip() {
 			m.Sample(wit)
 		}
 
-		der, err := ocsp.CreateResponse(p.issuer.cert, responder.cert, tmpl, signer.key)
+		der, err := w.create(time.Duration(i%100000)*time.Hour, p.issuer.cert, responder.cert, tmpl, signer.key)
 		m.Eval()
 		if err != nil {
 			m.Count("rt_create_errors", 1)
@@ -210,8 +211,8 @@ func (w *c48w) roundtrip() {
 		// independent reading of what was produced
 		ref, rerr := ocspref.Parse(der)
 		if rerr != nil || !ref.HasBasic || len(ref.Singles) != 1 {
-			if expectErr != "" || parseEither == "undocumented-status" {
-				m.Count("rt_unjudged:"+orStr(expectErr, parseEither), 1)
+			if expectErr != "" || oddStatus {
+				m.Count("rt_unjudged:"+orStr(expectErr, "undocumented-status"), 1)
 				return
 			}
 			wit["walker"] = fmt.Sprint(rerr)
@@ -249,16 +250,22 @@ func (w *c48w) roundtrip() {
 		got, perr := ocsp.ParseResponseForCert(der, forCert, verifyWith)
 		if perr != nil {
 			wit["parse_err"] = perr.Error()
-			if parseEither != "" || expectErr != "" {
-				m.Count("rt_parse_rejects:"+orStr(parseEither, expectErr), 1)
+			if parseEither != "" || expectErr != "" || oddStatus {
+				m.Count("rt_parse_rejects:"+orStr(orStr(parseEither, expectErr), "undocumented-status"), 1)
+				return
+			}
+			if embed && !useDelegate && inter && verifyWith != nil {
+				// documented consequence of "issuer will be used to verify the signature on the embedded
+				// certificate": an issuer that is not self-signed cannot embed its own certificate
+				m.Count("rt_obs_intermediate_issuer_embedding_itself_rejected", 1)
 				return
 			}
 			m.Violation("roundtrip:parse-rejects-created-response:"+vw, wit)
 			return
 		}
-		if expectErr != "" || parseEither == "undocumented-status" {
+		if expectErr != "" || oddStatus {
 			// produced and parsed although the template is outside the documented domain: nothing to compare
-			m.Count("rt_unjudged:"+orStr(expectErr, parseEither), 1)
+			m.Count("rt_unjudged:"+orStr(expectErr, "undocumented-status"), 1)
 			return
 		}
 		m.Count("rt_compared", 1)
@@ -273,7 +280,8 @@ func (w *c48w) roundtrip() {
 		if !got.ThisUpdate.Equal(tmpl.ThisUpdate.Truncate(time.Second)) {
 			bad = append(bad, "ThisUpdate")
 		}
-		if hasNext != !got.NextUpdate.IsZero() || (hasNext && !got.NextUpdate.Equal(tmpl.NextUpdate.Truncate(time.Second))) {
+		// (a zero NextUpdate means "absent"; 0001-01-01T00:00:00Z is that same value)
+		if !got.NextUpdate.Equal(tmpl.NextUpdate.Truncate(time.Second)) {
 			bad = append(bad, "NextUpdate")
 		}
 		if tmpl.Status == ocsp.Revoked {
@@ -348,8 +356,32 @@ func (w *c48w) roundtrip() {
 		if _, e := ocsp.ParseResponseForCert(der, other, verifyWith); e == nil {
 			m.Violation("roundtrip:ParseResponseForCert-returns-status-of-another-serial", wit)
 		}
+		// … also one that agrees with it in the low 64 bits
+		other = &x509.Certificate{SerialNumber: new(big.Int).Add(tmpl.SerialNumber, new(big.Int).Lsh(big.NewInt(1), 64))}
+		if _, e := ocsp.ParseResponseForCert(der, other, verifyWith); e == nil {
+			m.Violation("roundtrip:ParseResponseForCert-returns-status-of-another-serial", wit)
+		}
 		m.Count("rt_other_serial_rejected", 1)
 	})
+}
+
+// create runs ocsp.CreateResponse under a fake clock (testing/synctest bubble,
+// 2000-01-01T00:00:00Z + off) so that the produced bytes — ProducedAt and with
+// it the signature — are a pure function of the case, not of the wall clock.
+func (w *c48w) create(off time.Duration, issuer, responder *x509.Certificate, tmpl ocsp.Response, key crypto.Signer) (der []byte, err error) {
+	var pv any
+	var stack string
+	synctest.Test(w.t, func(*testing.T) {
+		if off > 0 {
+			time.Sleep(off)
+		}
+		pv, stack = mon.Panics(func() { der, err = ocsp.CreateResponse(issuer, responder, tmpl, key) })
+	})
+	if pv != nil {
+		w.m.Violation("panic:"+mon.PanicSite(stack), map[string]any{"entry": "CreateResponse", "panic": fmt.Sprint(pv), "serial": fmt.Sprint(tmpl.SerialNumber), "status": tmpl.Status})
+		return nil, fmt.Errorf("CreateResponse panicked: %v", pv)
+	}
+	return
 }
 
 func orStr(a, b string) string {
